@@ -47,6 +47,9 @@ class Case:
     def __init__(self, cid, spec, cores, cpuset, filetext=None, kind=None):
         self.cid = cid; self.spec = spec; self.cores = cores; self.cpuset = cpuset; self.filetext = filetext
         self.form = form_of(spec); self.kind = kind or self.form
+        # the form used in violation keys: a map file that cannot be opened (documented fallback to the flat map) is its own class,
+        # so that the recorded findings about parsable-but-mishandled files can never absorb a failure of the fallback path
+        self.keyform = 'file-unopenable' if (self.form == 'file' and filetext is None) else self.form
 
     def binding_form(self):
         """which of the three documented binding syntaxes the description that reaches parse_binding_parameter uses
@@ -201,7 +204,7 @@ def run(ctx):
                 for fn, loc in re.findall(r'#\d+\s+(?:0x[0-9a-f]+\s+in\s+)?(\S+)\s+\(.*?\)\s+at\s+(\S+)', main_thread[0] if main_thread else bt):
                     if '/parsec/' in loc and '/verif/' not in loc:
                         site = fn; break
-                return c, r2, what, ('stall', 'vpmap:%s:stall:%s' % (c.form, site) if site else None)
+                return c, r2, what, ('stall', 'vpmap:%s:stall:%s' % (c.keyform, site) if site else None)
             r = r2
         return c, r, what, None
 
@@ -228,9 +231,9 @@ def run(ctx):
                 m = re.search(r'SUMMARY: AddressSanitizer: (\S+)', ''.join(r.san)) or re.search(r'ERROR: AddressSanitizer: (\S+)', ''.join(r.san))
                 kind = m.group(1) if m else 'asan'
             if kind == 'ubsan' and s and s.get('ok'):
-                key = 'vpmap:%s:ubsan-in:%s' % (c.form, site)
+                key = 'vpmap:%s:ubsan-in:%s' % (c.keyform, site)
             else:
-                key = 'vpmap:%s:crash-in:%s:%s' % (c.form, site, kind)
+                key = 'vpmap:%s:crash-in:%s:%s' % (c.keyform, site, kind)
                 if site == 'parse_binding_parameter':
                     key += ':' + c.binding_form()
             ctx.violation(key, '%s: process ended abnormally (%s) in %s: %s' % (what, kind, site, head or (r.stderr or '')[-200:]), r, files)
@@ -244,7 +247,7 @@ def run(ctx):
         if not s.get('ok'):
             if c.form in ('malformed', 'file', 'rr'):
                 ctx.note_case(c.ident()); ctx.add_cov('clean_error_exits'); continue
-            ctx.violation('vpmap:%s:init-failed' % c.form, '%s: parsec_init returned NULL' % what, r, files); continue
+            ctx.violation('vpmap:%s:init-failed' % c.keyform, '%s: parsec_init returned NULL' % what, r, files); continue
         # ---------------- a context was built: compare with the specification
         start = r.of('start')[0]; vm = r.of('vpmap')[0]; cx = r.of('context')[0]; osv = r.of('os')[0]
         avail = set(start['cpuset']); A = len(avail)
@@ -296,7 +299,7 @@ def run(ctx):
         if s.get('ran') and (s['start_rc'] != 0 or s['wait_rc'] != 0):
             bad.append(('unusable-context', 'context start/wait returned %d/%d' % (s['start_rc'], s['wait_rc'])))
         for k, txt in bad:
-            ctx.violation('vpmap:%s:%s' % (c.form, k), '%s: %s' % (what, txt), r, files)
+            ctx.violation('vpmap:%s:%s' % (c.keyform, k), '%s: %s' % (what, txt), r, files)
         ctx.note_case(c.ident())
         ctx.add_cov('contexts_compared'); ctx.add_cov('threads_observed', sum(threads)); ctx.add_cov('os_threads_checked', len(osv['affinity']))
         ctx.max_cov('max_threads_in_a_map', sum(threads))
